@@ -161,7 +161,10 @@ def check (c):
         judge ('zenith', g4.max () - g4.min (), 1e-6, 'total gain at the zenith varies with azimuth: %s' % g4)
     # ---- same object, sources changed at the same frequency, same angle grid again: the
     # reported field must be the integral of the *new* currents
-    common.guarded (lambda: m.compute_far_field (zen, azi, pwr = None, dist = 1.0), 'compute_far_field')
+    # a request without a power level after requests with one: the level of an earlier request must not stick
+    common.guarded (lambda: m.compute_far_field (zen, azi, dist = 1.0), 'compute_far_field')
+    d = max (np.abs (np.array (m.far_field.e_theta) - et0).max (), np.abs (np.array (m.far_field.e_phi) - ep0).max ()) / mxr
+    judge ('V/m-default-level-again', d, 1e-9, 'a request without a power level after requests for %.3g and %.3g W differs by %.3g from the first request without one' % (P, P2, d))
     src = [(x.idx, complex (x.voltage)) for x in m.sources]
     m.sources = []
     for j, (idx, v) in enumerate (src):
